@@ -46,7 +46,7 @@ CHECKS = {
         technique="property-based testing (rapid) + exhaustive enumeration of small groups against a validity predicate",
         level_text=("Validity predicate of the statement (exactly-once, subscribers only, per-topic balance <=1, contiguous / k-th runs, "
                     "order independence, rack bound) evaluated on every group with <=4 members x 2 topics x <=5 partitions x all listing orders, "
-                    "every rack placement for rack-affinity (<=4 members, <=6 partitions), each rack-affinity case re-run in fresh maps; plus generated groups up to 30 members x 200 partitions."),
+                    "every rack placement for rack-affinity (<=4 members, <=6 partitions), each rack-affinity case re-run in fresh maps; plus generated groups up to 30 members x 200 partitions, cloud-style rack names, partitions listed with an error of their own."),
         level_note="RackAffinity map-iteration orders are sampled (6-8 runs per case), not enumerated",
         rule=("cases = (balancer, members with subscriptions and racks, listed partitions with leader racks, listing permutation); "
               "enumerated small groups (quick: 1/12 slice chosen by seed) + rapid-generated groups. Non-trivial = some topic has >=2 subscribers and >=1 partition; "
@@ -64,7 +64,7 @@ CHECKS = {
         level_text=("Every registered API x version x direction: generated field values are encoded by the library and strictly decoded by the "
                     "reference codec (size prefix, header, every field, no trailing bytes; byte-identical for non-flexible versions), "
                     "reference-encoded responses (with unknown tagged fields) are decoded by the library and compared field by field, one frame consumed exactly; "
-                    "library-only round trip; both the default and the `unsafe` build of the protocol package. The hand-written Conn codec: every request-emitting Conn operation (ApiVersions, Brokers, Controller, ReadPartitions, ReadOffset/First/Last, Seek, ReadBatchWith, WriteMessages / WriteCompressedMessages, CreateTopics, DeleteTopics) with generated arguments, client ids (empty, multi-byte, long) and broker version ceilings, and the group APIs through ConsumerGroup: the fake broker decodes each request strictly and the field values are compared with what the operation asked for; fetch responses are compared record by record under chunked delivery; for Conn.WriteMessages the key, value, timestamp and headers of every record on the wire are compared with the call's messages; a byte-by-byte sweep puts the second record set of a produce request across the encoder's 64 KiB page boundary. The conversion layer of kafka.Client (37 methods x every version): generated high-level requests are sent through a Transport to a scripted broker that advertises exactly one version; the captured frame is decoded strictly and compared with an expected body written independently from the documented meaning of the request fields, and the high-level response is compared with the field values of the generated response the broker encoded (fields derived from the context deadline, hard-coded by the library or without a member in the response struct are listed in the unit and not compared). Exploration: values are sampled, (api,version,direction) is covered completely."),
+                    "library-only round trip; both the default and the `unsafe` build of the protocol package. The hand-written Conn codec: every request-emitting Conn operation (ApiVersions, Brokers, Controller, ReadPartitions, ReadOffset/First/Last, Seek, ReadBatchWith, WriteMessages / WriteCompressedMessages, CreateTopics, DeleteTopics) with generated arguments, client ids (empty, multi-byte, long) and broker version ceilings, and the group APIs through ConsumerGroup: the fake broker decodes each request strictly and the field values are compared with what the operation asked for; fetch responses are compared record by record under chunked delivery; for Conn.WriteMessages the key, value, timestamp and headers of every record on the wire are compared with the call's messages; a byte-by-byte sweep puts the second record set of a produce request across the encoder's 64 KiB page boundary. The conversion layer of kafka.Client (37 methods x every version): generated high-level requests are sent through a Transport to a scripted broker that advertises exactly one version; the captured frame is decoded strictly and compared with an expected body written independently from the documented meaning of the request fields, and the high-level response is compared with the field values of the generated response the broker encoded (fields derived from the context deadline, hard-coded by the library or without a member in the response struct are listed in the unit and not compared). Every round trip except Produce/Fetch is repeated through protocol.Marshal / Unmarshal, with decodes of cut-off prefixes of the same bytes in between (a failed decode leaves nothing behind). Exploration: values are sampled, (api,version,direction) is covered completely."),
         level_note="trusts the pinned schema table refcodec/schema_table.go (reviewed against the Kafka message definitions; deviations listed in DESIGN.md) and the reference primitives (self-tested in setup)",
         rule=("case = (api, version, direction, generated value tree); rapid draws api and version uniformly from the 40 registered APIs, values from boundary-biased generators "
               "(null/empty/long strings, empty/null/>127-element arrays, int min/max, unknown tags). Non-trivial = at least one field present at that version has a non-default value; "
@@ -88,7 +88,7 @@ CHECKS = {
         technique="model-based property testing (rapid): generated Writer programs and produce-fault scripts against an in-memory fake cluster, oracle over the wire journal",
         level_text=("Generated scenarios (1-4 concurrent callers, 1-2 topics x 1-4 partitions, every batch/acks/compression/balancer setting, produce v2..v8) run the real Writer against the fake cluster, "
                     "which injects per-request faults (temporary/permanent codes, dropped before/after apply, cut responses, stalls, leader moves). Oracle over the journal: partition = balancer's choice, "
-                    "nil/WriteErrors[i] == acknowledged, Completion exactly once with the same outcome, no resend after a delivered acknowledgement."),
+                    "nil/WriteErrors[i] == acknowledged, Completion exactly once with the same outcome, no resend after a delivered acknowledgement, no more attempts than MaxAttempts (unset or negative = 10), the balancer is offered exactly 0..n-1 of the message's topic. Brokers advertise Produce up to v0, v1, v2, v3, v5, v7 or v8."),
         level_note="caller interleavings and timers are sampled, not enumerated; trusts the fake broker's produce semantics (DESIGN A.6) and the reference record decoder",
         rule=("case = (cluster layout, writer config, caller programs, fault script per produce request); every 3rd case is built from one of 5 strata (lost ack + retry, permanent error, mixed outcome in one call, async, stalled request). "
               "Non-trivial = at least one fault hit a produce request or two callers shared a partition; distinct by (config class, fault-kind multiset, label set)."),
@@ -107,7 +107,7 @@ CHECKS = {
                     "x source reader types x 1-3 interleaved streams x a history of earlier uses of the pooled objects (complete, abandoned half-read, closed twice, truncated / corrupted / garbage input, failing sink, sibling codec value sharing the pool) "
                     "x 2-8 goroutines on one codec value. Oracles: identity; compressed bytes decoded by stdlib gzip / hand-parsed xerial + golang/snappy (cross-checked with go-xerial-snappy) / pierrec lz4 / klauspost zstd; "
                     "reference-encoded streams (raw snappy block, hand-built multi-block xerial, multi-member gzip, lz4 frames with all flag combinations, zstd stream/EncodeAll/multi-frame) read by the codec; "
-                    "a use that fails after a history is re-run on a fresh codec value to attribute the failure to the history. Exploration: all dimensions are sampled."),
+                    "a use that fails after a history is re-run on a fresh codec value to attribute the failure to the history. Writers that offer ReadFrom are fed from one or two sources, with Write before and after. Exploration: all dimensions are sampled."),
         level_note=("lz4 and zstd reference decoders are the same upstream libraries the codecs wrap (used directly, without the pooling layer); corrupted inputs never touch length fields that could make a decoder allocate gigabytes (that is C20); "
                     "sequential units run with GOMAXPROCS(1) so that sync.Pool hands the object of the history step to the next use; a data race seen by the race-built TestConcurrent unit surfaces as exit 2 (infrastructure) with the race report in the unit log"),
         rule=("case = (codec spec, history steps, 1-3 streams each with payload recipe (kind, length, seed) + Write plan + Read plan, optional reference encoder spec, goroutines); "
@@ -127,7 +127,7 @@ CHECKS = {
         pkg="props/c07", level="exploration",
         technique="model-based property testing (rapid): generated submitters and retry-provoking fault scripts, order oracle over the fake broker's partition logs",
         level_text=("Writer scenarios biased to ordering (1-2 partitions, batch size 1-3, 1-3 submitters, sync and async, lost acks / temporary errors / cuts / leader moves on chosen produce requests). "
-                    "Oracle: inside every appended copy the submitter's order is kept, every copy of an earlier batch precedes every copy of a later one, and per submitter the first occurrences in the log are in submission order. Further strata: a slow Logger (user callbacks as schedule perturbation), the batch timer of a partial batch racing with a call that fills the next batch, a stampede of simultaneous first submissions to one partition, a broker that stops reading in the middle of a produce request for longer than WriteTimeout and then reads on (write stall); the order rules are evaluated on what was appended also when Close hangs."),
+                    "Oracle: inside every appended copy the submitter's order is kept, every copy of an earlier batch precedes every copy of a later one, and per submitter the first occurrences in the log are in submission order. Further strata: a slow Logger (user callbacks as schedule perturbation), the batch timer of a partial batch racing with a call that fills the next batch, a stampede of simultaneous first submissions to one partition, a broker that stops reading in the middle of a produce request for longer than WriteTimeout and then reads on (write stall); the order rules are evaluated on what was appended also when Close hangs; permanent errors and slow answers are part of the fault menu."),
         level_note="interleavings of submitters, batch timers and retries are sampled; trusts the fake broker to append requests in arrival order",
         rule=("case = writer scenario (see C01) with ordering bias; non-trivial = some partition received >= 2 distinct batches and at least one batch was sent more than once; "
               "distinct by (partitions, batch size, mode, balancer, fault multiset, labels)."),
@@ -190,7 +190,7 @@ CHECKS = {
         level_text=("The product (3 version profiles x 23 Conn operations incl. the consumer-group operations x each error field of the response x 8 error codes x 23 following operations) is enumerated "
                     "(thorough: completely; quick: a 1/23 slice in which codes and following operations rotate under every (profile, operation, field)). The fake broker answers the first operation with the code in that field; "
                     "the following operation on the same Conn must return what it returns on a freshly dialled Conn to an identical cluster. Transport-level faults (cut at byte k, dropped response, garbage size prefix, wrong correlation id) "
-                    "must make the first operation fail, every later operation fail and nothing more be written. (that a request is still written before the later operation fails is recorded, not judged). Also: an error code (with and without an empty API list) on the implicit ApiVersions exchange of every negotiating operation, enumerated completely; a response that never comes while the connection stays open; goroutines reading single messages (batches closed before the end of the fetch response) while others run request/response operations on the same Conn; logs mixing plain and compressed batches (every codec, message formats 1 and 2, truncated tails under small MaxBytes) opened at any offset and closed after any number of messages, followed by any operation."),
+                    "must make the first operation fail, every later operation fail and nothing more be written. (that a request is still written before the later operation fails is recorded, not judged). Also: an error code (with and without an empty API list) on the implicit ApiVersions exchange of every negotiating operation, enumerated completely; a response that never comes while the connection stays open; goroutines reading single messages (batches closed before the end of the fetch response) while others run request/response operations on the same Conn; logs mixing plain and compressed batches (every codec, message formats 1 and 2, truncated tails under small MaxBytes) opened at any offset and closed after any number of messages, followed by any operation. CreateTopics with three topics of which only the first is refused."),
         level_note="the group operations are reached through exported wrappers compiled under the verif tag; state equality of the two clusters relies on the fake applying nothing when it answers with an injected code",
         rule=("case = (profile, operation, error field, code | transport fault, following operation); non-trivial = the fault reached the client as an error of the first operation; distinct by the tuple."),
         assumptions=["error codes are injected only into fields the API's response has at the negotiated version", "one broker plays leader, controller and coordinator"],
@@ -237,7 +237,7 @@ CHECKS = {
                     "and SeekDontCheck, in and out of range, each followed by Offset(), ReadPartitions (own topic, lists, all, unknown). Client: ListOffsets over many topics/partitions/leaders with First/Last/TimeOffsetOf mixes and repeated partitions, "
                     "OffsetFetch (lists and all-topics), OffsetCommit (then the coordinator's recorded offsets+metadata are compared), ConsumerOffsets, Metadata. Faults: error code or dropped connection on exactly one partition's (or one sub-request's) "
                     "ListOffsets, refused dials to one leader, error code on one partition of an OffsetFetch / OffsetCommit answer (the rejected commit is not applied), unknown partitions, leaderless partitions; the same query runs without and with the fault "
-                    "and everything but the failed partition must be identical and equal to the model. Metamorphic: Conn.ReadPartitions on identical clusters under Metadata v1 and v6 gives the same answer. Isolation levels: with an open transaction ListOffsets(read_committed) reports the last stable offset, read_uncommitted the high watermark."),
+                    "and everything but the failed partition must be identical and equal to the model. Metamorphic: Conn.ReadPartitions on identical clusters under Metadata v1 and v6 gives the same answer. Isolation levels: with an open transaction ListOffsets(read_committed) reports the last stable offset, read_uncommitted the high watermark. Injected codes include -1 (UNKNOWN_SERVER_ERROR)."),
         level_note="cluster state is static while a query runs (only OffsetCommit ops change it, sequentially), so 'the state when the request was served' is the model's state; Metadata v0 is excluded (the transport cannot ask for all topics at v0, C12's business)",
         rule=("case = (cluster spec, 1-6 ops; an op = a Conn program of 3-10 steps or one Client call, optional fault). Strata drawn per case: TestConn 1/4 seek-heavy starting with SeekEnd, 1/4 with a fault on the k-th ListOffsets of the connection; "
               "TestClient 1/3 ListOffsets over every partition of >=2 topics x >=2 partitions on >=2 brokers with a fault, 1/3 starting with a faulted OffsetFetch/OffsetCommit. "
@@ -315,7 +315,7 @@ CHECKS = {
         technique="property-based testing (rapid) of generated concurrent programs with payload-tagged requests; adversarial response timing from the fake broker; schedule-point yields",
         level_text=("2-8 goroutines share one Conn (or 2-12 share one Transport to 1-3 brokers); every call asks for something only it asks for (a unique timestamp, topic, group, key, record value, byte limit) and the fake broker derives the answer from that tag. "
                     "Responses are delayed, dribbled byte by byte, held back while other calls proceed, cut or dropped; transport calls are cancelled at generated moments, idle connections expire, Conn deadlines fire; "
-                    "schedule points inside waitResponse / doRequest / conn.run add yields. Oracle: every call returns an error or the answer carrying its own tag; produce acknowledgements are checked against the log. Also: requests the Transport splits into sub-requests (first one delayed), the deterministic pattern 'deadline ends while the answer is held, next call on the same route', fetch responses whose records are consumed lazily while other calls run, batches closed early and twice on three Conns used at the same time, a hammer of 6-16 goroutines released together by a spin barrier for hundreds of rounds (windows of a few instructions), a watchdog for calls that never return, and io.ErrNoProgress on a Conn whose responses were all delivered completely counts as a misaligned stream."),
+                    "schedule points inside waitResponse / doRequest / conn.run add yields. Oracle: every call returns an error or the answer carrying its own tag; produce acknowledgements are checked against the log. Also: requests the Transport splits into sub-requests (first one delayed), the deterministic pattern 'deadline ends while the answer is held, next call on the same route', fetch responses whose records are consumed lazily while other calls run, batches closed early and twice on three Conns used at the same time, a hammer of 6-16 goroutines released together by a spin barrier for hundreds of rounds (windows of a few instructions), a watchdog for calls that never return, and io.ErrNoProgress on a Conn whose responses were all delivered completely counts as a misaligned stream; in a third of the Conn cases a compressed write with a codec that cannot be set up fails first (what it leaves in the shared buffers must not matter)."),
         level_note="interleavings are sampled; a cross-talk that needs a specific interleaving may be missed in one run",
         rule=("case = (mode, goroutines x tagged calls with per-call broker fault and cancellation point, deadlines, schedule-point yields); non-trivial = >= 2 goroutines and at least one fault or cancellation; distinct by (mode, shape, fault multiset, labels)."),
         assumptions=["the fake answers requests of one connection in request order, as Kafka guarantees"],
